@@ -10,6 +10,7 @@ import os
 from fractions import Fraction
 
 from .. import translate
+from . import normalize
 
 UP = "fairlearn/reductions/_moments/utility_parity.py"
 MO = "fairlearn/reductions/_moments/moment.py"
@@ -23,7 +24,7 @@ def _bad(msg):
 
 def _parse(repo, rel):
     with open(os.path.join(repo, rel)) as f:
-        return ast.parse(f.read())
+        return normalize.parse(f.read())
 
 
 def _cls(tree, name):
